@@ -153,6 +153,8 @@ def check_state(acc, pendulum, z, inst):
             got, want = ("ok", got[1][:3]), ("ok", want[1][:3])     # fields and offset (the raw fold flag is C02's business)
         if got != want:
             acc.mismatch("replace", "+".join(sorted(kw)), dict(case, kw={k: str(v) for k, v in kw.items()}), got, want)
+    if z is not None:
+        check_foreign_receiver(acc, pendulum, x, b, case)
     f7 = obs.fields(x)
     iso = x.isoformat()
     mix = {"for_json": (x.for_json(), iso), "format-empty": (format(x, ""), str(x)), "str": (str(x), b.isoformat(" ")),
@@ -208,6 +210,40 @@ def check_constructors(acc, pendulum, z, inst, x, b, case):
             if got != want:
                 acc.mismatch("constructor", name.split("(")[0] + ("/" + name.split("(")[1].rstrip(")") if "(" in name else ""),
                              dict(case, ctor=name), got, want)
+
+
+FOREIGN_ACCESSORS = ("isoformat", "utcoffset", "tzname", "timestamp", "utctimetuple", "timetuple", "date", "timetz", "year..fold",
+                     "strftime(%Y-%m-%dT%H:%M:%S.%f%z)", "astimezone-utc")
+
+
+def check_foreign_receiver(acc, pendulum, x, b, case):
+    """A DateTime that carries a stdlib tzinfo (what astimezone(<stdlib tz>) and fromisoformat return) is still a drop-in
+    replacement: accessors and replace() agree with the native object carrying the same tzinfo."""
+    off = b.utcoffset()
+    for lbl, ftz in (("timezone.utc", dt_.timezone.utc), ("timezone(offset)", dt_.timezone(off))):
+        try:
+            fx, nb = x.astimezone(ftz), b.astimezone(ftz)
+        except Exception as e:  # noqa: BLE001
+            acc.mismatch("foreign-receiver", f"astimezone({lbl})/raises", dict(case, foreign=lbl), type(e).__name__, "a DateTime")
+            continue
+        for name, fn in ACCESSORS:
+            if name not in FOREIGN_ACCESSORS:
+                continue
+            got, want = _try(lambda: fn(fx)), _try(lambda: fn(nb))
+            acc.c["evaluations"] += 1
+            acc.c["transitions"] += 1
+            if got != want:
+                acc.mismatch("foreign-receiver", name.split("(")[0], dict(case, foreign=lbl, acc=name), got, want)
+        for kw in REPLACE_DT:
+            got, want = _try(lambda: fx.replace(**kw)), _try(lambda: nb.replace(**kw))
+            acc.c["evaluations"] += 1
+            if got[0] == "ok" and want[0] == "ok":
+                got, want = ("ok", got[1][:3]), ("ok", want[1][:3])
+            if got != want:
+                acc.mismatch("foreign-receiver", "replace/" + "+".join(sorted(kw)), dict(case, foreign=lbl, kw={k: str(v) for k, v in kw.items()}),
+                             got, want)
+        if not (fx == nb and hash(fx) == hash(nb)):
+            acc.mismatch("foreign-receiver", "eq-hash", dict(case, foreign=lbl), [fx == nb, hash(fx) == hash(nb)], [True, True])
 
 
 def kf_fold_order(x, y, ix, iy, got, name):
